@@ -2,6 +2,7 @@ package harness
 
 import (
 	"bytes"
+	"context"
 	"encoding/json"
 	"fmt"
 	"net/http"
@@ -28,6 +29,10 @@ type C06Op struct {
 	N       int    `json:"n,omitempty"`       // size / index parameter
 	Variant int    `json:"variant,omitempty"` // seed for deterministic garbage
 	Vanish  bool   `json:"vanish,omitempty"`  // peer goes away while the handler runs (streams)
+	Chunked bool   `json:"chunked,omitempty"` // the body is sent without a Content-Length (Transfer-Encoding: chunked)
+	// Dup (stdio): the line is a tools/call of a tool that issues roots/list; the peer answers that request Dup times at
+	// once (answers to a request are "responses to requests that were never sent" from the second one on)
+	Dup int `json:"dup,omitempty"`
 }
 
 type C06Case struct {
@@ -150,6 +155,10 @@ func genC06(t *rapid.T) C06Case {
 			op.CT = rapid.SampledFrom([]string{"", "", "-", "text/plain", "application/x-www-form-urlencoded", "\x7f"}).Draw(t, "ct")
 			op.LastEv = rapid.SampledFrom([]string{"", "", "evt-1-1", "garbage\x01", strings.Repeat("9", 300)}).Draw(t, "lastev")
 			op.Vanish = rapid.Bool().Draw(t, "vanish")
+			op.Chunked = rapid.IntRange(0, 3).Draw(t, "chunked") == 0
+		}
+		if c.Kind == 4 && rapid.IntRange(0, 5).Draw(t, "dup") == 0 {
+			op.Body, op.Dup = "dup-answers", rapid.IntRange(2, 12).Draw(t, "ndup")
 		}
 		if op.Body == "large" && Excluded("C06/large") {
 			op.Body = "valid-call"
@@ -213,6 +222,19 @@ func execC06(c C06Case) *Failure {
 func execC06Stdio(c C06Case) *Failure {
 	w := NewWorld(ModeStdio, c06Reg, WorldOpt{})
 	defer w.Close()
+	type lister interface {
+		ListRoots(ctx context.Context) (*mcp.ListRootsResult, error)
+	}
+	w.Stdio.RegisterTool(mcp.NewTool("askroots"), func(ctx context.Context, req *mcp.CallToolRequest) (*mcp.CallToolResult, error) {
+		rctx, cancel := context.WithTimeout(ctx, 2*time.Second)
+		defer cancel()
+		l, ok := mcp.GetServerFromContext(ctx).(lister)
+		if !ok {
+			return mcp.NewTextResult("no server"), nil
+		}
+		_, err := l.ListRoots(rctx)
+		return mcp.NewTextResult(fmt.Sprint("roots: ", err)), nil
+	})
 	conn, err := w.Connect()
 	if err != nil {
 		return Failf("C06/connect", "stdio: %v", err)
@@ -225,6 +247,32 @@ func execC06Stdio(c C06Case) *Failure {
 		}
 	}()
 	for i, op := range c.Ops {
+		if op.Body == "dup-answers" {
+			// the server asks this peer for its roots; the peer answers op.Dup times in one write
+			before := conn.lines
+			conn.in.Write([]byte(fmt.Sprintf(`{"jsonrpc":"2.0","id":"dup%d","method":"tools/call","params":{"name":"askroots","arguments":{}}}`+"\n", i)))
+			id := ""
+			deadline := time.Now().Add(Patience())
+			for id == "" && time.Now().Before(deadline) {
+				all, _ := SplitStdioLines(conn.out.Bytes())
+				for _, l := range all[before:] {
+					var m map[string]json.RawMessage
+					if json.Unmarshal(l, &m) == nil && string(m["method"]) == `"roots/list"` {
+						id = string(m["id"])
+					}
+				}
+				time.Sleep(200 * time.Microsecond)
+			}
+			if id == "" {
+				return TimingFailf("C06/stdio-server-request-missing", "stdio op %d: the tool's roots/list request did not appear", i)
+			}
+			ans := fmt.Sprintf(`{"jsonrpc":"2.0","id":%s,"result":{"roots":[{"uri":"file:///%s","name":"r"}]}}`+"\n", id, strings.Repeat("p", op.N%3000))
+			conn.in.Write([]byte(strings.Repeat(ans, op.Dup)))
+			conn.out.WaitQuiet(3*time.Millisecond, 80*time.Millisecond)
+			all, _ := SplitStdioLines(conn.out.Bytes())
+			conn.lines = len(all)
+			continue
+		}
 		body, malformed, wantID := c06Body(op, true)
 		body = bytes.ReplaceAll(body, []byte("\n"), []byte(" "))
 		expect := ""
@@ -337,6 +385,12 @@ func execC06HTTP(c C06Case) *Failure {
 		for k, v := range hdr {
 			req.Header[k] = v
 		}
+		if hdr.Get("X-Verif-Chunked") != "" {
+			// what net/http hands a handler for a request sent with Transfer-Encoding: chunked
+			req.Header.Del("X-Verif-Chunked")
+			req.ContentLength = -1
+			req.TransferEncoding = []string{"chunked"}
+		}
 		rec := httptest.NewRecorder()
 		done := make(chan interface{}, 1)
 		go func() {
@@ -430,6 +484,9 @@ func execC06HTTP(c C06Case) *Failure {
 		}
 		if op.LastEv != "" {
 			hdr.Set("Last-Event-ID", op.LastEv)
+		}
+		if op.Chunked {
+			hdr.Set("X-Verif-Chunked", "1")
 		}
 		url := basePath
 		if op.Path != "" {
